@@ -11,8 +11,9 @@ import re
 
 from gen import irgen
 from vlib import core, passlib
+from tools.fields_of import bad_optional
 
-COQ_TARGETS = ["Props/C06.vo", "Model/Spec06.vo", "Proofs/ChainPresProofs.vo"]
+COQ_TARGETS = ["Props/C06.vo", "Model/Spec06.vo", "Proofs/ChainPresProofs.vo", "Proofs/ChainPhpJavaProofs.vo"]
 PROPS = "Props/C06.v"
 TRUSTED = [
     "normal-form predicates coq/Model/NF.v (hint payloads are excluded: they keep the original union by design)",
@@ -69,12 +70,13 @@ def regen(ctx):
     core.write_if_changed(os.path.join(core.COQ, "Gen", "Chains_gen.v"), "\n".join(lines) + "\n")
 
 
-# the hypothesis of the chain theorems, evaluated on the input of each case (go, python; java only has a theorem
-# for the chain without its last pass)
+# the hypothesis of the chain theorems (Props/C06.v nf_<lang>_partial), evaluated on the input of each case
 TAME_DEF = """Definition case_tame (c : nfcase) : bool :=
   let '(lang, (input, _, outcome, _)) := c in
   match outcome with
-  | Ok _ => if String.eqb lang "go" then tame_go input else if String.eqb lang "python" then tame_python input else false
+  | Ok _ => if String.eqb lang "go" then tame_go input else if String.eqb lang "python" then tame_python input
+            else if String.eqb lang "java" then tame_java_full input else if String.eqb lang "php" then tame_php input
+            else if String.eqb lang "typescript" then true else false
   | _ => false
   end.
 """
@@ -176,7 +178,11 @@ def cause_of(lang, violation, objtext, name, input_names, input_alias_names, fea
     if violation == "optional-field-not-nullable":
         if re.search(r'mkField "[^"]*" \[[^\]]*\] \(TScalar A0 KAny DNil \[\]\) false', objtext):
             return "any-from-undiscriminated-union"
-        if lang == "java" and (name in input_alias_names or re.search(r'mkField "[^"]*" \[[^\]]*\] \((?:TRef (?:A0|\{\| nullable := false.*?\|\}) "[^"]*" "[^"]*"|TArray A0 \([^()]*\))\) false', objtext)):
+        # RemoveIntersections rebuilds a field that referred to a collapsed alias / an alias of an array as a fresh
+        # reference / array: not nullable whatever the field was.  (A field that is a reference or array in both the
+        # input and the output but lost its nullability can only come from there in the Java chain.)
+        java_rebuilt = any(re.match(r'\((?:TRef|TArray) (?:A0|\{\| nullable := false)', ty) for _, ty in bad_optional(objtext))
+        if lang == "java" and (name in input_alias_names or java_rebuilt):
             return "field-rewritten-by-remove-intersections"
         # a field that was a union in the input and is a bare, non-nullable scalar now
         for fm in re.finditer(r'mkField ("[^"]*") \[[^\]]*\] \(TScalar (?:A0|\{\| nullable := false[^|]*\|\}) K\w+ DNil \[\]\) false', objtext):
@@ -231,7 +237,7 @@ def run(ctx, verdict, replay=None, model_ok=True):
     def do(k):
         ids = shards[k]
         cases = "[" + ";\n".join('("%s", %s)' % (jobs[i]["lang"], passlib.case_term(results[i])) for i in ids) + "]"
-        pre = passlib.PREAMBLE % "Model.Spec06 Proofs.ChainPresProofs" + TAME_DEF + "Definition cases : list nfcase :=\n%s.\n" % cases
+        pre = passlib.PREAMBLE % "Model.Spec06 Proofs.ChainPresProofs Proofs.ChainPhpJavaProofs" + TAME_DEF + "Definition cases : list nfcase :=\n%s.\n" % cases
         r = core.coq_eval_lists(ctx, "cases_C06_%d" % k, pre, [
             ("NF", "indices case_nf_bad cases"), ("MM", "indices case_chain_mismatch cases"),
             ("UM", "indices case_chain_unmodelled cases"), ("FL", "indices case_chain_failed cases"),
